@@ -165,8 +165,16 @@ func (d *DKG) StoreDeal(participant string, deal *dkg.Deal) {
 	d.deals[participant] = deal
 }
 
-func (d *DKG) ProcessDeals() ([]*dkg.Response, error) {
-	responses := make([]*dkg.Response, 0)
+func (d *DKG) ProcessDeals() (responses []*dkg.Response, err error) {
+	// kyber panics on some malformed deals (an AES-GCM nonce of a wrong length, a decrypted deal without a share):
+	// such a deal is refused like any other bad deal
+	defer func() {
+		if r := recover(); r != nil {
+			responses, err = nil, fmt.Errorf("failed to process deals: %v", r)
+		}
+	}()
+
+	responses = make([]*dkg.Response, 0)
 	for _, deal := range d.deals {
 		if deal.Index == uint32(d.ParticipantID) {
 			continue
